@@ -27,8 +27,9 @@ SLICES = {
 
 def validate_one(ctx, k, rec):
     p = os.path.join(ctx.build, "c05.t%d.ndjson" % k)
-    clean = rec["scn"]["srvFault"].startswith("none")
-    lines = [dict(plan=rec["plan"], maxServers=rec["maxServers"], clean=clean)] + rec["events"]
+    cli = rec["scn"].get("cliFault", "none") != "none"
+    clean = rec["scn"]["srvFault"].startswith("none") and not cli
+    lines = [dict(plan=rec["plan"], maxServers=rec["maxServers"], clean=clean, cliFault=cli)] + rec["events"]
     vf.write_ndjson(p, lines)
     r = ctx.tlc("Trace_Runner", "Trace_Runner.cfg", workers=1, env=dict(VERIF_TRACE=p), timeout=900, heap="2g")
     if r.lines("ACCEPT"):
@@ -58,14 +59,17 @@ REFMODE = [
 ]
 
 
-def reference_mode(ctx):
+def reference_mode(ctx, only=None):
     """run() with the reference peers in process (the grpc-go peers add permutations under marked names): the outcomes
     must be exactly the permutations that the declarative selection (GlobDecl.Selected) picks among all names, and none
     of them may be a setup failure - also when every server has to share one port with --max-servers 1."""
     rnd = random.Random(ctx.seed)
     picks = REFMODE if not ctx.quick else REFMODE[3:] + rnd.sample(REFMODE[:3], 2)
+    if only is not None:   # reduced form, used by C08 (whose statement is about which permutations run() executes)
+        picks = [REFMODE[i] for i in only]
     scns = [dict(config=REFMODE_CONFIG, run=r, skip=s, fixedPort=False) for r, s in picks]
-    scns.append(dict(config=REFMODE_CONFIG, run=["Basic/**/unary/**"], skip=[], fixedPort=True))
+    if only is None:
+        scns.append(dict(config=REFMODE_CONFIG, run=["Basic/**/unary/**"], skip=[], fixedPort=True))
     binp = ctx.go_test_bin("internal/app/connectconformance", ["c05", "peers"], race=True)
     split = lambda names: [n.split("/") for n in names]
 
@@ -157,6 +161,10 @@ def run(ctx):
         return
     mc = ctx.tlc("MC_Runner", "MC_Runner.cfg", timeout=900)
     ctx.notes["mc_design"] = dict(distinct=mc.distinct, generated=mc.generated)
+    # the same run with a client that may fail at any time: no further batch is started, the batches in flight fail what
+    # they have not sent, and the run ends with every server process gone
+    mcl = ctx.tlc("MC_RunnerCL", "MC_RunnerCL_q.cfg" if q else "MC_RunnerCL.cfg", timeout=1800)
+    ctx.notes["mc_design_client_loss"] = dict(distinct=mcl.distinct, generated=mcl.generated)
     g = ctx.tlc("Gen_Runner", "Gen_Runner.cfg", timeout=600)
     space = g.json_lines("SCN ")
     space.sort(key=lambda s: json.dumps(s, sort_keys=True))
@@ -177,11 +185,16 @@ def run(ctx):
         pick += [s for s in space if s["srvFault"] != "none:0" and s["config"] == "h1h2c-all" and s["slice"] == "basic-unary" and s["par"] == 4 and s["maxServers"] in (1, 2)]
         # exactly one instance with client certificates: visited in an order that varies from run to run, so several runs
         pick += [s for s in space if s["srvFault"] == "none:0" and s["config"] == "tls-one-cert-instance" and s["slice"] == "client-certs" and s["par"] == 4] * 6
+        # client loss (RunnerCL.tla): the client answers k requests and then writes something the runner rejects, while
+        # every other server is slow to come down - five instances, two or three slots, several runs (which servers are
+        # slow, and which batch notices first, varies)
+        pick += [dict(config="h1h2c-all", slice="basic", par=4, maxServers=m, srvFault="slowstop:1500", cliFault="garbageAfterResp:%d" % k)
+                 for m, k in ((2, 2), (2, 5), (3, 3), (2, 9), (2, 1), (3, 7))]
     scns = []
     for s in pick:
         run_p, skip_p = SLICES[s["slice"]]
         scns.append(dict(config=CONFIGS[s["config"]], run=run_p, skip=skip_p, maxServers=s["maxServers"], par=s["par"],
-                         serverFail=False, srvFault=s["srvFault"]))
+                         serverFail=False, srvFault=s["srvFault"], cliFault=s.get("cliFault", "none")))
     scnp, outp = os.path.join(ctx.build, "c05.scn"), os.path.join(ctx.build, "c05.out")
     vf.write_ndjson(scnp, scns)
     d = os.path.join(ctx.build, "c05run")
